@@ -3,7 +3,7 @@ import json, jsonschema, sys, glob, os
 V = os.path.dirname(os.path.dirname(os.path.abspath(__file__)))
 jsonschema.validate(json.load(open(V + '/MANIFEST.json')), json.load(open('/root/.vp/MANIFEST.schema.json')))
 es = json.load(open('/root/.vp/EVIDENCE.schema.json'))
-for f in sorted(glob.glob(V + '/evidence/*.json')):
+for f in sorted(glob.glob(V + '/evidence/C??.json')):
     jsonschema.validate(json.load(open(f)), es)
     e = json.load(open(f))
     print(os.path.basename(f), e['tier'], 'evals', e['coverage'].get('evaluations'), 'nontrivial', e['coverage'].get('distinct_nontrivial'), 'viol', e.get('violations'), 'wall', round(e['wall_s'], 1))
